@@ -239,3 +239,55 @@ class LogSourceFromDict(_Loader):
         except Exception as e:
             return f"log source {d!r}: {type(e).__name__}: {e} escapes the Sigma error hierarchy"
         return None
+
+
+@register
+class SigmaNumberInit(Contract):
+    """SigmaNumber.__post_init__: whatever float() / int() do with the raw value - succeed, ValueError (text that is no number),
+    OverflowError (an integer beyond the float range, int(inf)) - the outcome is a number (int when it represents the value exactly) or
+    SigmaValueError; inf and nan are rejected"""
+    id = "C07.SigmaNumber.__post_init__"
+    target = "sigma.types:SigmaNumber.__post_init__"
+    props = ("C07", "C03")
+    assumed = ["float() and int() of an arbitrary YAML scalar return a number or raise ValueError / TypeError-free OverflowError (CPython contract of the two constructors for str / int / float inputs)",
+               "numbers are mathematical values in this contract"]
+
+    def setup(self, E):
+        from pyvc.interp import PyRaise
+
+        def conv(name):
+            def f(I, a, k):
+                j = I.ctx.choose([I.fresh(f"{name}_ok", "bool").t, I.fresh(f"{name}_value_error", "bool").t, z3.BoolVal(True)])
+                if j == 1:
+                    raise PyRaise(ExcValue("ValueError", ("bad number",)))
+                if j == 2:
+                    raise PyRaise(ExcValue("OverflowError", ("too large",)))
+                r = I.fresh(name, "int")
+                I.E._c07_num[name] = r
+                return r
+            return NativeFn(name, f)
+        E.builtins = dict(E.builtins)
+        E.builtins["float"] = conv("float")
+        E.builtins["int"] = conv("int")
+        E.externals["math.isfinite"] = lambda I, a, k: I.E._c07_num.setdefault("finite", I.fresh("isfinite", "bool"))
+
+    def args(self, I):
+        I.E._c07_num = {}
+        me = SObj(I.E.index.lookup("sigma.types:SigmaNumber"), {})
+        return {"self": me, "args": [I.fresh("raw", "opaque", "Scalar")]}
+
+    def post(self, I, inp, r):
+        n = I.E._c07_num
+        me = inp["self"]
+        c = I.ctx
+        c.require("float" in n and "int" in n and "finite" in n, "both conversions succeeded")
+        if "float" in n and "int" in n and "finite" in n:
+            c.require(n["finite"].t, "inf / nan are rejected")
+            num = me.fields.get("number")
+            c.require(num is not None and ops.kind_of(num) == "int" and ops.mk_bool_term(ops.py_eq(I, num, n["float"])), "the stored number has the value of float(raw) (as int where that is exact)")
+
+    def raises(self, I, inp, exc):
+        I.ctx.require(exc_is(I, exc, "SigmaValueError"), f"only SigmaValueError (got {exc_name(exc)})", kind="SAFE")
+
+    def frame_ok(self, I, inp, obj, name):
+        return obj is inp["self"] and name == "number"
